@@ -188,6 +188,20 @@ polyseed_data *seed_from_ref(const rseed *r) {
     if (polyseed_load(st, &s) != POLYSEED_OK) return NULL;
     return s;
 }
+/* the same abstract seed, but produced by polyseed_create (+ polyseed_crypt with an all-zero
+ * mask for the encrypted flag), so the library computes the check value itself */
+polyseed_data *seed_via_create(const rseed *r) {
+    if (r->features & 8) return NULL;
+    uint8_t keep_tape[32], keep_mask[32]; uint64_t keep_clock = E.clock[0];
+    memcpy(keep_tape, E.tape[0], 32); memcpy(keep_mask, E.mask, 32);
+    memset(E.tape[0], 0, 32); memcpy(E.tape[0], r->secret, 19);
+    E.clock[0] = ref_birthday_time(r->birthday) + 1;
+    polyseed_data *s = NULL;
+    if (polyseed_create(r->features & 7, &s) != POLYSEED_OK) s = NULL;
+    if (s && (r->features & 16)) { memset(E.mask, 0, 32); polyseed_crypt(s, ""); }
+    memcpy(E.tape[0], keep_tape, 32); memcpy(E.mask, keep_mask, 32); E.clock[0] = keep_clock;
+    return s;
+}
 int lang_index(const polyseed_lang *l) {
     int n = polyseed_get_num_langs();
     for (int i = 0; i < n; i++) if (polyseed_get_lang(i) == l) return i;
